@@ -66,6 +66,10 @@ def analyse(prop: str, root: str, tier: str, quiet: bool = False, overlay=None):
     try:
         mod.run(rep)
         rep.run(_generic_rules)
+        for rel in sorted(repo.consulted):
+            mi = repo.modules.get(rel)
+            for q, opt, dflt in (getattr(mi, "specialised", None) or []):
+                rep.note(f"{rel}:{q}: option `{opt}` is newer than the pinned tree and passed by no call in the package - analysed at its default {dflt} (what it does when turned on is not analysed)")
         code = rep.finish()
     except AnalysisError as exc:
         code = rep.finish()
